@@ -5,20 +5,33 @@
 (*                                                                         *)
 (* A volume is a lattice of NBX x NBY x NBZ blocks (lattice-relative block *)
 (* coordinates 0..NB?-1; the harness places the lattice at a seeded,       *)
-(* possibly negative block origin and picks the block size).  Writes are   *)
-(* block aligned (POST raw/0_1_2 needs it; POST blocks is a row of whole   *)
-(* blocks along X), so the content of a block is determined by the last    *)
-(* write that touched it: vol[v][b] = index of that write, 0 = never       *)
-(* written = background.  The harness refines write id w to voxels by a    *)
-(* fixed function f(w, x, y, z), so every voxel of every write is          *)
-(* distinguishable.                                                        *)
+(* possibly negative block origin and picks the block size).  Writes       *)
+(* through the HTTP API are block aligned (POST raw/0_1_2 needs it; POST   *)
+(* blocks is a row of whole blocks along X), so the content of a block is  *)
+(* determined by the last write that touched it: vol[v][b] = index of that *)
+(* write, 0 = never written = background.  The file ingest (`load`) is the *)
+(* one write that is NOT block aligned: it merges a slab of XY images into *)
+(* the blocks it intersects.  Every block is cut into 2 x 2 x 2 cells of   *)
+(* half a block edge; a load covers a box of cells and lc[v][c] is the     *)
+(* index of the load that last wrote cell c.  Write indices grow with      *)
+(* time, so the content of a cell is the larger of the two.  The harness   *)
+(* refines write id w to voxels by a fixed function f(w, x, y, z), so      *)
+(* every voxel of every write is distinguishable.                          *)
 (*                                                                         *)
-(* Requests: write(v, api, mutate, box, roi) on an open version v, and     *)
-(* newver(p): commit p (when still open) and create a child of p.          *)
-(* Reads are state functions: CellMap / Read over a lattice of cells of    *)
-(* half a block edge (so read boxes cut blocks) with a margin of one block *)
-(* around the written lattice; BlockStream for the block-wise endpoints;   *)
-(* ext for the advertised extents.                                         *)
+(* Requests: write(v, api, mutate, box, roi) and load(v, cbox) on an open  *)
+(* version v; newver(p): commit p (when still open) and create a child of  *)
+(* p; setroi(v, r, blocks): replace (POST roi) or delete (DELETE roi) the  *)
+(* region of interest r at the open version v - regions are versioned      *)
+(* data like the volume; setext(v, box): POST extents.                     *)
+(* Reads are state functions: Read over a lattice of cells (so read boxes  *)
+(* cut blocks) with a margin of one block around the written lattice,      *)
+(* optionally masked by a region of interest (GET ...?roi=<name>: voxels   *)
+(* of blocks outside the region read as background); BlockStream for the   *)
+(* block-wise endpoints; ext for the advertised extents.                   *)
+(*                                                                         *)
+(* A region of interest whose block size differs from the volume's cannot  *)
+(* restrict it block by block: requests that name one (RoiForeign) are     *)
+(* refused and change nothing.                                             *)
 (*                                                                         *)
 (* Step is a pure function so that the same semantics serves the           *)
 (* exhaustive exploration (Next, ImageVol_mc) and the evaluation of seeded *)
@@ -28,8 +41,13 @@ EXTENDS Integers, Sequences, FiniteSets, TLC
 
 CONSTANTS NBX, NBY, NBZ,   \* blocks per axis
           MaxVersions,
-          MaxWrites,
-          Rois             \* sequence of block-id sets: the regions of interest that exist
+          MaxWrites,       \* writes + loads
+          Rois,            \* sequence of block-id sets: the regions of interest at the root version
+          RoiAlts,         \* sequence of block-id sets a region can be changed to (setroi; {} = DELETE)
+          RoiForeign,      \* set of region numbers whose block size differs from the volume's
+          MaxRoiOps,       \* bound on setroi requests
+          MaxExtOps,       \* bound on setext requests
+          MaxLoads         \* bound on load requests (they also count as writes)
 
 NB     == NBX * NBY * NBZ
 Blocks == 1..NB
@@ -40,63 +58,121 @@ Dim(a) == IF a = 1 THEN NBX ELSE IF a = 2 THEN NBY ELSE NBZ
 Min2(a, b) == IF a < b THEN a ELSE b
 Max2(a, b) == IF a > b THEN a ELSE b
 
-\* A box is [lo, hi], inclusive corner block coordinates; NoBox is the empty box.
+\* A box is [lo, hi], inclusive corner coordinates; NoBox is the empty box.
 NoBox == [lo |-> <<0, 0, 0>>, hi |-> <<-1, -1, -1>>]
 InBox(c, box) == \A a \in 1..3 : box.lo[a] <= c[a] /\ c[a] <= box.hi[a]
 BoxBlocks(box) == {b \in Blocks : InBox(BC(b), box)}
 Hull(p, q) == IF p = NoBox THEN q ELSE IF q = NoBox THEN p
               ELSE [lo |-> [a \in 1..3 |-> Min2(p.lo[a], q.lo[a])],
                     hi |-> [a \in 1..3 |-> Max2(p.hi[a], q.hi[a])]]
+Contains(outer, inner) == inner = NoBox \/ (outer # NoBox /\ \A a \in 1..3 : outer.lo[a] <= inner.lo[a] /\ inner.hi[a] <= outer.hi[a])
 Boxes == {bx \in [lo : (0..NBX-1) \X (0..NBY-1) \X (0..NBZ-1), hi : (0..NBX-1) \X (0..NBY-1) \X (0..NBZ-1)] :
             \A a \in 1..3 : bx.lo[a] <= bx.hi[a]}
 RowBoxes == {bx \in Boxes : bx.lo[2] = bx.hi[2] /\ bx.lo[3] = bx.hi[3]}
+
+\* Cells: half a block edge.  Cell coordinate c on axis a covers the half block (c \div 2, c % 2).
+NCX == 2 * NBX
+NCY == 2 * NBY
+NCZ == 2 * NBZ
+CellIds == 1..(NCX * NCY * NCZ)
+CellOfId(i) == << (i - 1) % NCX, ((i - 1) \div NCX) % NCY, (i - 1) \div (NCX * NCY) >>
+CellId(c) == 1 + c[1] + NCX * (c[2] + NCY * c[3])
+InLattice(c) == \A a \in 1..3 : 0 <= c[a] /\ c[a] < 2 * Dim(a)
+CellBlock(c) == IF InLattice(c) THEN Bid(c[1] \div 2, c[2] \div 2, c[3] \div 2) ELSE 0
+\* the cell box of a block box
+CellsOfBlockBox(bx) == IF bx = NoBox THEN NoBox
+                       ELSE [lo |-> [a \in 1..3 |-> 2 * bx.lo[a]], hi |-> [a \in 1..3 |-> 2 * bx.hi[a] + 1]]
+CellBoxes == {bx \in [lo : (0..NCX-1) \X (0..NCY-1) \X (0..NCZ-1), hi : (0..NCX-1) \X (0..NCY-1) \X (0..NCZ-1)] :
+                \A a \in 1..3 : bx.lo[a] <= bx.hi[a]}
+\* the blocks a cell box intersects
+CellBoxBlocks(cb) == {b \in Blocks : \A a \in 1..3 : cb.lo[a] <= 2 * BC(b)[a] + 1 /\ 2 * BC(b)[a] <= cb.hi[a]}
 
 ---------------------------------------------------------------------------
 \* State: a record.
 InitState == [nver |-> 1, par |-> <<0>>, open |-> <<TRUE>>, kids |-> <<0>>,
               vol  |-> << [b \in Blocks |-> 0] >>,
-              ext  |-> << NoBox >>,
-              nw   |-> 0]
+              lc   |-> << [i \in CellIds |-> 0] >>,   \* cell -> index of the load that last wrote it
+              ls   |-> << {} >>,                      \* blocks stored by loads
+              ext  |-> << NoBox >>,                   \* advertised extents, in cell coordinates
+              roi  |-> << Rois >>,                    \* the block set of every region, per version
+              nw   |-> 0, nr |-> 0, ne |-> 0, nl |-> 0]
+
+OpenVersions(s) == {u \in 1..s.nver : s.open[u]}
 
 WriteOps(s) ==
     {[op |-> "write", v |-> v, api |-> "raw", mutate |-> m, box |-> bx, roi |-> r] :
-        v \in {u \in 1..s.nver : s.open[u]}, m \in BOOLEAN, bx \in Boxes, r \in 0..Len(Rois)}
+        v \in OpenVersions(s), m \in BOOLEAN, bx \in Boxes, r \in 0..Len(Rois)}
     \cup
     {[op |-> "write", v |-> v, api |-> "blocks", mutate |-> m, box |-> bx, roi |-> 0] :
-        v \in {u \in 1..s.nver : s.open[u]}, m \in BOOLEAN, bx \in RowBoxes}
-VerOps(s) == {[op |-> "newver", v |-> p] : p \in 1..s.nver}
+        v \in OpenVersions(s), m \in BOOLEAN, bx \in RowBoxes}
+LoadOps(s) == {[op |-> "load", v |-> v, cbox |-> cb] : v \in OpenVersions(s), cb \in CellBoxes}
+VerOps(s)  == {[op |-> "newver", v |-> p] : p \in 1..s.nver}
+RoiOps(s)  == {[op |-> "setroi", v |-> v, roi |-> r, blocks |-> RoiAlts[k]] :
+                  v \in OpenVersions(s), r \in (1..Len(Rois)) \ RoiForeign, k \in 1..Len(RoiAlts)}
+\* the extents a client posts in the exploration: the whole lattice, or the lattice with its margin
+LatticeBox == [lo |-> <<0, 0, 0>>, hi |-> <<NCX - 1, NCY - 1, NCZ - 1>>]
+MarginBox  == [lo |-> <<-2, -2, -2>>, hi |-> <<NCX + 1, NCY + 1, NCZ + 1>>]
+ExtOps(s)  == {[op |-> "setext", v |-> v, box |-> bx] : v \in OpenVersions(s), bx \in {LatticeBox, MarginBox}}
 
 Enabled(s, o) ==
-    IF o.op = "write" THEN o.v \in 1..s.nver /\ s.open[o.v] /\ s.nw < MaxWrites
-    ELSE o.v \in 1..s.nver /\ s.nver < MaxVersions
+    CASE o.op = "write"  -> o.v \in 1..s.nver /\ s.open[o.v] /\ s.nw < MaxWrites
+      [] o.op = "load"   -> o.v \in 1..s.nver /\ s.open[o.v] /\ s.nw < MaxWrites /\ s.nl < MaxLoads
+      [] o.op = "newver" -> o.v \in 1..s.nver /\ s.nver < MaxVersions
+      [] o.op = "setroi" -> o.v \in 1..s.nver /\ s.open[o.v] /\ s.nr < MaxRoiOps /\ o.roi \in (1..Len(Rois)) \ RoiForeign
+      \* a client that posts extents posts extents that contain what is already there
+      [] o.op = "setext" -> o.v \in 1..s.nver /\ s.open[o.v] /\ s.ne < MaxExtOps /\ Contains(o.box, s.ext[o.v])
+      [] OTHER -> FALSE
+
+\* a request that names a region of interest of another block size is refused
+Refused(o) == o.op = "write" /\ o.roi \in RoiForeign
 
 \* the blocks a write stores: its box, restricted to the region of interest when one is named
-Targets(o) == IF o.roi = 0 THEN BoxBlocks(o.box) ELSE BoxBlocks(o.box) \cap Rois[o.roi]
+\* (the region as it is at the version written to)
+Targets(s, o) == IF o.roi = 0 THEN BoxBlocks(o.box) ELSE BoxBlocks(o.box) \cap s.roi[o.v][o.roi]
+
+InCellBox(i, cb) == InBox(CellOfId(i), cb)
 
 Step(s, o) ==
-    IF o.op = "write" THEN
+    CASE o.op = "write" ->
+        IF Refused(o) THEN [s EXCEPT !.nw = s.nw + 1]
+        ELSE
         [s EXCEPT !.nw = s.nw + 1,
-                  !.vol[o.v] = [b \in Blocks |-> IF b \in Targets(o) THEN s.nw + 1 ELSE s.vol[o.v][b]],
-                  !.ext[o.v] = Hull(s.ext[o.v], o.box)]
-    ELSE
+                  !.vol[o.v] = [b \in Blocks |-> IF b \in Targets(s, o) THEN s.nw + 1 ELSE s.vol[o.v][b]],
+                  !.ext[o.v] = Hull(s.ext[o.v], CellsOfBlockBox(o.box))]
+      [] o.op = "load" ->
+        [s EXCEPT !.nw = s.nw + 1, !.nl = s.nl + 1,
+                  !.lc[o.v] = [i \in CellIds |-> IF InCellBox(i, o.cbox) THEN s.nw + 1 ELSE s.lc[o.v][i]],
+                  !.ls[o.v] = s.ls[o.v] \cup CellBoxBlocks(o.cbox),
+                  !.ext[o.v] = Hull(s.ext[o.v], o.cbox)]
+      [] o.op = "setroi" ->
+        [s EXCEPT !.nr = s.nr + 1, !.roi[o.v][o.roi] = o.blocks]
+      [] o.op = "setext" ->
+        [s EXCEPT !.ne = s.ne + 1, !.ext[o.v] = o.box]
+      [] OTHER ->
         [s EXCEPT !.nver = s.nver + 1,
                   !.par  = Append(s.par, o.v),
                   !.open = Append([s.open EXCEPT ![o.v] = FALSE], TRUE),
                   !.kids = Append([s.kids EXCEPT ![o.v] = s.kids[o.v] + 1], 0),
                   !.vol  = Append(s.vol, s.vol[o.v]),
-                  !.ext  = Append(s.ext, s.ext[o.v])]
+                  !.lc   = Append(s.lc, s.lc[o.v]),
+                  !.ls   = Append(s.ls, s.ls[o.v]),
+                  !.ext  = Append(s.ext, s.ext[o.v]),
+                  !.roi  = Append(s.roi, s.roi[o.v])]
 
 ---------------------------------------------------------------------------
-\* Reads.  Cells have half a block edge; cell coordinate c on axis a covers the half block
-\* (c \div 2, c % 2); the margin of 2 cells (one block) on every side is never written.
+\* Reads.  The margin of 2 cells (one block) on every side of the lattice is never written.
 CellLo(a) == -2
 CellHi(a) == 2 * Dim(a) + 1
-CellBlock(c) == IF \A a \in 1..3 : 0 <= c[a] /\ c[a] < 2 * Dim(a)
-                THEN Bid(c[1] \div 2, c[2] \div 2, c[3] \div 2) ELSE 0
-CellVal(s, v, c) == IF CellBlock(c) = 0 THEN 0 ELSE s.vol[v][CellBlock(c)]
+\* content of a cell: the later of the aligned write of its block and the load of the cell
+CellVal(s, v, c) == IF ~InLattice(c) THEN 0 ELSE Max2(s.vol[v][CellBlock(c)], s.lc[v][CellId(c)])
+\* ... as seen through region of interest r (0 = none): blocks outside the region are background
+MaskedVal(s, v, c, r) == IF r = 0 THEN CellVal(s, v, c)
+                         ELSE IF InLattice(c) /\ CellBlock(c) \in s.roi[v][r] THEN CellVal(s, v, c) ELSE 0
 \* a read box is [lo, hi] in cell coordinates; a 2-D slice is a read box of thickness one voxel
 \* inside one cell layer, so its expected content is that of a cell box that is 1 cell thick.
-Read(s, v, rb) == [c \in (rb.lo[1]..rb.hi[1]) \X (rb.lo[2]..rb.hi[2]) \X (rb.lo[3]..rb.hi[3]) |-> CellVal(s, v, c)]
+ReadR(s, v, rb, r) == [c \in (rb.lo[1]..rb.hi[1]) \X (rb.lo[2]..rb.hi[2]) \X (rb.lo[3]..rb.hi[3]) |-> MaskedVal(s, v, c, r)]
+Read(s, v, rb) == ReadR(s, v, rb, 0)
+ReadRefused(r) == r \in RoiForeign
 \* The structural classes of a read interval on one axis: (first cell, last cell).  They fix how
 \* the interval lies relative to the block grid and to the written lattice (starts/ends on a
 \* block border or inside a block, within one block or across 2..NB+2 blocks, partly or wholly
@@ -104,48 +180,84 @@ Read(s, v, rb) == [c \in (rb.lo[1]..rb.hi[1]) \X (rb.lo[2]..rb.hi[2]) \X (rb.lo[
 \* offsets inside the first and the last cell.
 AxisClasses(a) == {p \in (CellLo(a)..CellHi(a)) \X (CellLo(a)..CellHi(a)) : p[1] <= p[2]}
 \* block-wise endpoints (blocks, subvolblocks, specificblocks): stored blocks with their content
-Written(s, v) == {b \in Blocks : s.vol[v][b] # 0}
-BlockStream(s, v, bs) == [b \in (bs \cap Written(s, v)) |-> s.vol[v][b]]
+Written(s, v) == {b \in Blocks : s.vol[v][b] # 0} \cup s.ls[v]
+BlockCells(b) == {i \in CellIds : CellBlock(CellOfId(i)) = b}
+BlockContent(s, v, b) == [i \in BlockCells(b) |-> CellVal(s, v, CellOfId(i))]
+BlockStream(s, v, bs) == [b \in (bs \cap Written(s, v)) |-> BlockContent(s, v, b)]
+\* hull of the written cells, in cell coordinates
+WrittenCells(s, v) == {i \in CellIds : CellVal(s, v, CellOfId(i)) # 0}
 WrittenHull(s, v) ==
-    IF Written(s, v) = {} THEN NoBox
-    ELSE [lo |-> [a \in 1..3 |-> CHOOSE m \in 0..Dim(a)-1 : (\E b \in Written(s, v) : BC(b)[a] = m) /\ (\A b \in Written(s, v) : BC(b)[a] >= m)],
-          hi |-> [a \in 1..3 |-> CHOOSE m \in 0..Dim(a)-1 : (\E b \in Written(s, v) : BC(b)[a] = m) /\ (\A b \in Written(s, v) : BC(b)[a] <= m)]]
+    LET W == WrittenCells(s, v)
+        Dc(a) == IF a = 1 THEN NCX ELSE IF a = 2 THEN NCY ELSE NCZ
+    IN
+    IF W = {} THEN NoBox
+    ELSE [lo |-> [a \in 1..3 |-> CHOOSE m \in 0..Dc(a)-1 : (\E i \in W : CellOfId(i)[a] = m) /\ (\A i \in W : CellOfId(i)[a] >= m)],
+          hi |-> [a \in 1..3 |-> CHOOSE m \in 0..Dc(a)-1 : (\E i \in W : CellOfId(i)[a] = m) /\ (\A i \in W : CellOfId(i)[a] <= m)]]
 
 ---------------------------------------------------------------------------
 \* The claims of property C17, stated declaratively and checked against Step.
 
 \* "the advertised extents cover every written voxel"
-ExtentsCover(s) == \A v \in 1..s.nver : \A b \in Written(s, v) : InBox(BC(b), s.ext[v])
+ExtentsCover(s) == \A v \in 1..s.nver : \A i \in WrittenCells(s, v) : InBox(CellOfId(i), s.ext[v])
 
 \* "unwritten voxels read as the background value": a cell outside every written block reads 0,
-\* and a cell reads the write that last stored its block - whatever box is used to read it.
+\* and a cell reads the write that last stored it - whatever box is used to read it; read
+\* through a region of interest, a cell of a block of the region reads what it reads without the
+\* region and every other cell reads background.
 FullBox == [lo |-> <<CellLo(1), CellLo(2), CellLo(3)>>, hi |-> <<CellHi(1), CellHi(2), CellHi(3)>>]
 ReadClaims(s) ==
     \A v \in 1..s.nver :
-        /\ LET full == Read(s, v, FullBox) IN
+        /\ LET full  == Read(s, v, FullBox)
+               fullR == [r \in (1..Len(Rois)) \ RoiForeign |-> ReadR(s, v, FullBox, r)]
+           IN
            \A x \in CellLo(1)..CellHi(1), y \in CellLo(2)..CellHi(2), z \in CellLo(3)..CellHi(3) :
               LET cb  == CellBlock(<<x, y, z>>)
                   val == full[<<x, y, z>>]
-              IN  IF cb = 0 THEN val = 0
-                  ELSE IF cb \notin Written(s, v) THEN val = 0
-                  ELSE val = s.vol[v][cb] /\ val > 0
+              IN  /\ IF cb = 0 THEN val = 0
+                     ELSE IF cb \notin Written(s, v) THEN val = 0
+                     ELSE val \in {s.vol[v][cb], s.lc[v][CellId(<<x, y, z>>)]} /\ val >= s.vol[v][cb] /\ val >= s.lc[v][CellId(<<x, y, z>>)]
+                  /\ \A r \in (1..Len(Rois)) \ RoiForeign :
+                        fullR[r][<<x, y, z>>] = IF cb # 0 /\ cb \in s.roi[v][r] THEN val ELSE 0
         /\ DOMAIN BlockStream(s, v, Blocks) = Written(s, v)
+        \* a block that reads non-background somewhere is a stored block
+        /\ \A i \in WrittenCells(s, v) : CellBlock(CellOfId(i)) \in Written(s, v)
 
 \* written voxels are read back (the last write wins); a write restricted by a region of
 \* interest changes only blocks inside that region; nothing changes outside the written box or
-\* at any other version; a new version starts as a copy of its (now immutable) parent.
+\* at any other version; a new version starts as a copy of its (now immutable) parent; a change
+\* of a region or of the extents changes no voxel.
+SameVoxels(s, t, v) == \A i \in CellIds : CellVal(t, v, CellOfId(i)) = CellVal(s, v, CellOfId(i))
 StepClaims(s, o, t) ==
-    IF o.op = "write" THEN
-        /\ t.nver = s.nver /\ t.par = s.par /\ t.open = s.open
-        /\ \A v \in 1..s.nver : v # o.v => t.vol[v] = s.vol[v] /\ t.ext[v] = s.ext[v]
-        /\ \A b \in Blocks :
-              /\ ~InBox(BC(b), o.box) => t.vol[o.v][b] = s.vol[o.v][b]
-              /\ (o.roi # 0 /\ b \notin Rois[o.roi]) => t.vol[o.v][b] = s.vol[o.v][b]
-              /\ (InBox(BC(b), o.box) /\ (o.roi = 0 \/ b \in Rois[o.roi])) => t.vol[o.v][b] = t.nw /\ t.nw > s.nw
-    ELSE
+    CASE o.op = "write" ->
+        /\ t.nver = s.nver /\ t.par = s.par /\ t.open = s.open /\ t.roi = s.roi
+        /\ \A v \in 1..s.nver : v # o.v => SameVoxels(s, t, v) /\ t.ext[v] = s.ext[v]
+        /\ Refused(o) => SameVoxels(s, t, o.v) /\ t.ext = s.ext /\ Written(t, o.v) = Written(s, o.v)
+        /\ ~Refused(o) => \A i \in CellIds :
+              LET c == CellOfId(i)
+                  b == CellBlock(c) IN
+              /\ ~InBox(BC(b), o.box) => CellVal(t, o.v, c) = CellVal(s, o.v, c)
+              /\ (o.roi # 0 /\ b \notin s.roi[o.v][o.roi]) => CellVal(t, o.v, c) = CellVal(s, o.v, c)
+              /\ (InBox(BC(b), o.box) /\ (o.roi = 0 \/ b \in s.roi[o.v][o.roi])) => CellVal(t, o.v, c) = t.nw /\ t.nw > s.nw
+      [] o.op = "load" ->
+        /\ t.nver = s.nver /\ t.par = s.par /\ t.open = s.open /\ t.roi = s.roi
+        /\ \A v \in 1..s.nver : v # o.v => SameVoxels(s, t, v) /\ t.ext[v] = s.ext[v]
+        /\ \A i \in CellIds : CellVal(t, o.v, CellOfId(i)) = IF InCellBox(i, o.cbox) THEN t.nw ELSE CellVal(s, o.v, CellOfId(i))
+        /\ t.nw > s.nw
+      [] o.op = "setroi" ->
+        /\ t.nver = s.nver /\ t.par = s.par /\ t.open = s.open /\ t.nw = s.nw /\ t.ext = s.ext
+        /\ \A v \in 1..s.nver : SameVoxels(s, t, v) /\ Written(t, v) = Written(s, v)
+        /\ \A v \in 1..s.nver : \A r \in 1..Len(Rois) : (v # o.v \/ r # o.roi) => t.roi[v][r] = s.roi[v][r]
+        /\ t.roi[o.v][o.roi] = o.blocks
+      [] o.op = "setext" ->
+        /\ t.nver = s.nver /\ t.par = s.par /\ t.open = s.open /\ t.nw = s.nw /\ t.roi = s.roi
+        /\ \A v \in 1..s.nver : SameVoxels(s, t, v) /\ Written(t, v) = Written(s, v)
+        /\ \A v \in 1..s.nver : v # o.v => t.ext[v] = s.ext[v]
+        /\ Contains(t.ext[o.v], s.ext[o.v]) /\ Contains(t.ext[o.v], o.box)
+      [] OTHER ->
         /\ t.nver = s.nver + 1
-        /\ \A v \in 1..s.nver : t.vol[v] = s.vol[v] /\ t.ext[v] = s.ext[v]
-        /\ t.vol[t.nver] = s.vol[o.v] /\ t.ext[t.nver] = s.ext[o.v]
+        /\ \A v \in 1..s.nver : SameVoxels(s, t, v) /\ t.ext[v] = s.ext[v] /\ t.roi[v] = s.roi[v] /\ Written(t, v) = Written(s, v)
+        /\ \A i \in CellIds : CellVal(t, t.nver, CellOfId(i)) = CellVal(s, o.v, CellOfId(i))
+        /\ t.ext[t.nver] = s.ext[o.v] /\ t.roi[t.nver] = s.roi[o.v] /\ Written(t, t.nver) = Written(s, o.v)
         /\ ~t.open[o.v] /\ t.open[t.nver] /\ t.par[t.nver] = o.v
         /\ t.nw = s.nw
 
@@ -167,10 +279,14 @@ ClaimsFrom(s, ops, i) ==
          /\ ClaimsFrom(Step(s, ops[i]), ops, i + 1)
 RunClaims(ops) == ClaimsFrom(InitState, ops, 1)
 
-\* what the harness needs of a state: per version the block map, the intended extents and the
-\* hull of the written blocks
+\* what the harness needs of a state: per version the cell map (as read without and through
+\* every region of interest), the stored blocks, the advertised extents and the hull of the
+\* written cells (both in cell coordinates)
 Project(s) == [nver |-> s.nver, par |-> s.par, open |-> s.open,
-               vol |-> s.vol,
-               ext |-> [v \in 1..s.nver |-> <<s.ext[v].lo, s.ext[v].hi>>],
+               vol  |-> s.vol,
+               cvol |-> [v \in 1..s.nver |-> [r \in 1..(Len(Rois) + 1) |-> [i \in CellIds |-> MaskedVal(s, v, CellOfId(i), r - 1)]]],
+               stored |-> [v \in 1..s.nver |-> [b \in Blocks |-> IF b \in Written(s, v) THEN 1 ELSE 0]],
+               roi  |-> s.roi,
+               ext  |-> [v \in 1..s.nver |-> <<s.ext[v].lo, s.ext[v].hi>>],
                hull |-> [v \in 1..s.nver |-> <<WrittenHull(s, v).lo, WrittenHull(s, v).hi>>]]
 =============================================================================
